@@ -12,7 +12,7 @@
 (*   "c14"  removeparam rules x query-string shapes                          *)
 (*   "c15"  csp rules / exceptions x request types x tags                    *)
 (***************************************************************************)
-EXTENDS Net, TLC, Json
+EXTENDS Optimizer, TLC, Json
 
 CONSTANTS U, K, Big
 
@@ -400,6 +400,9 @@ CaseRecord(f) ==
                                      UNION {VerdictsSubset(L, hv, T, Res, Reqs[q], fl[1], fl[2]) :
                                               hv \in HitVectorsH([i \in DOMAIN L |-> f[q][i].ideal])}]]
                           ELSE <<>>,
+               \* Optimizer.tla: which rules the optimised engine fuses (observable in the debug text)
+               fuse |-> IF U \in {"c01", "c05"}
+                        THEN SetToSeqD({ {RuleText(L[i]) : i \in G} : G \in AllFuseGroups(L, T) }) ELSE <<>>,
                dev |-> SetToSeqD({ [q |-> q, names |-> UNION {DevHit(L[i], Reqs[q]) : i \in DOMAIN L}, mv |-> mv[q], mcsp |-> mc[q]] : q \in devq })]
       mh == [q \in DOMAIN Reqs |-> [i \in DOMAIN L |->
                IF Supported(Reqs[q]) THEN f[q][i].ideal ELSE {TRUE, FALSE}]]
@@ -444,6 +447,7 @@ RefinesAndExports ==
           \/ DevHit(L[i], Reqs[q]) # {}
     /\ \A q \in DOMAIN Reqs : IdealVerdictsH(L, T, Res, Reqs[q], [i \in DOMAIN L |-> f[q][i].ideal]) # {}
     /\ MonotoneIdeal(f)
+    /\ (U \in {"c01", "c05"} => FuseSound(L, T, Reqs) /\ \A i \in DOMAIN L : TokenViewsAgree(L[i]))
     /\ PrintT(ToJson(CaseRecord(f)))
 
 ASSUME PrintT(ToJson([k |-> "universe", u |-> U,
